@@ -79,6 +79,30 @@ theorem filter_validates_mkRules (d : RuleDesc) (oracle : Nat → Bytes → Bool
     validate (mkRules d oracle) (filter (mkRules d oracle) m x) = true :=
   filter_validates _ m x (mkRules_hypotheses d oracle).1 (mkRules_hypotheses d oracle).2
 
+/-! ### with a declared encoding (`rules::encoding()`), ASCII-compatible case
+
+`Enc` = the external `encoding::valid` / `encoding::validate_or_filter` (property C14) for the declared encoding and
+replacement character. -/
+
+/-- (4) validation never accepts text the encoding validator rejects -/
+theorem validate_implies_encoding_ok (e : Enc) (r : Rules) (x : Bytes) (h : validateE (some e) r x = true) :
+    e.valid x = true :=
+  validateE_encoding e r x h
+
+/-- (1) with a declared encoding, for every validator `e` satisfying `EncOk e r` (its pre-filter yields valid text;
+removing tokens / inserting the ASCII escapes keeps valid text valid) -/
+theorem filter_validates_encoded (r : Rules) (e : Enc) (m : Method) (x : Bytes) (hr : RulesOk r)
+    (hc : r.xhtml = false → HtmlCaseOk r) (he : EncOk e r) :
+    validateE (some e) r (filterE (some e) r m x) = true :=
+  filterE_validates_all r hr hc e he m x
+
+/-- every single-byte charset validator (a per-byte test that accepts the bytes of `&lt; &gt; &amp; &quot;`, used
+with replacement character NUL = "remove" or an accepted byte) satisfies `EncOk` — ISO-8859-x, windows-125x, koi8,
+US-ASCII in `encoding_validators.h` are of this form.  (For UTF-8 `EncOk` is not proved here: judge-only.) -/
+theorem single_byte_encOk (ok : UInt8 → Bool) (repl : UInt8) (r : Rules) (hesc : ∀ b ∈ escAlphabet, ok b = true)
+    (hrepl : repl = 0 ∨ ok repl = true) : EncOk (byteEnc ok repl) r :=
+  byteEnc_ok ok repl r hesc hrepl
+
 /-! `HtmlCaseOk` cannot be dropped for the *abstract* `Rules` type (whose `tagKind` is an arbitrary function):
 with `b` opening_and_closing but `B` stand_alone (impossible for a real HTML-mode `rules` object, whose map is
 keyed case-insensitively) the output `<b><B></b>` of `<b><x><B></x></b>` does not validate. -/
